@@ -35,6 +35,9 @@ type netEvent struct {
 
 type c13Scenario struct {
 	Events []netEvent `json:"events"`
+	// LateTracking: the client connects with state tracking off, sees its nick changed by the server,
+	// and only then enables tracking (allowed "while the client is not joined to any channels")
+	LateTracking bool `json:"late_tracking"`
 }
 
 var c13Chans = []string{"#a", "#b", "&c", "#D"}
@@ -265,11 +268,15 @@ func genNetEvent(t *rapid.T, n *model.Net) (netEvent, bool) {
 }
 
 func genC13(t *rapid.T) *c13Scenario {
-	sc := &c13Scenario{}
+	sc := &c13Scenario{LateTracking: rapid.IntRange(0, 3).Draw(t, "late_tracking") == 0}
 	n := model.NewNet("me")
 	add := func(e netEvent) {
 		sc.Events = append(sc.Events, e)
 		applyNetEvent(n, e)
+	}
+	if sc.LateTracking {
+		// (event 0) the server renames the still untracked client; tracking is enabled right after it
+		add(netEvent{Kind: "nick", U: 0, S: "me2", B1: true})
 	}
 	// a populated network before the client does anything
 	nu := rapid.IntRange(2, 5).Draw(t, "nusers")
@@ -393,7 +400,7 @@ func expectedTrackerDiff(st state.Tracker, n *model.Net, nickUniverse map[string
 }
 
 func runC13(sc *c13Scenario) *Violation {
-	tc := newTestClient(cliOpts{Flood: true, Tracking: true, Nick: "me"})
+	tc := newTestClient(cliOpts{Flood: true, Tracking: !sc.LateTracking, Nick: "me"})
 	defer tc.shutdown()
 	if err := tc.connect(); err != nil {
 		return violationf("C13", "connect: %v", err)
@@ -412,6 +419,10 @@ func runC13(sc *c13Scenario) *Violation {
 	st := tc.C.StateTracker()
 	var history []string
 	for ei, e := range sc.Events {
+		if sc.LateTracking && ei == 1 {
+			tc.C.EnableStateTracking()
+			st = tc.C.StateTracker()
+		}
 		lines := applyNetEvent(n, e)
 		if e.Kind == "reconnect" {
 			// the same client disconnects and registers again: the tracker must start from the client alone
@@ -464,6 +475,9 @@ func runC13(sc *c13Scenario) *Violation {
 				return violationf("C13", "event %d: client stopped answering after replies", ei)
 			}
 			pos = len(conn.Written())
+		}
+		if st == nil {
+			continue // tracking not enabled yet
 		}
 		if d := expectedTrackerDiff(st, n, universe, "Real Name"); d != "" {
 			h := history
